@@ -74,6 +74,12 @@ DSum(f, n) == IF n = 0 THEN D0 ELSE DSum(f, n-1) (+) f[n]
 MatMul(A, B) == LET n == Len(A) IN
    Vec([i \in 1..n |-> Vec([j \in 1..n |-> DSum([l \in 1..n |-> A[i][l] ** B[l][j]], n)])])
 
+\* ---- normalisation of a (non-unit) integer quaternion with rational norm: same rotation, unit norm, non-negative scalar part ----
+NormalizeQ(q) == LET n2 == q[1]*q[1] + q[2]*q[2] + q[3]*q[3] + q[4]*q[4]
+                     n == ISqrt(n2)                          \* -1 if the norm is irrational (not generated)
+                     s == IF q[4] >= 0 THEN 1 ELSE -1
+                 IN [c \in 1..4 |-> QR(s * q[c], n)]
+
 \* ---- equality of exact values ----
 DEqV(a, b) == QEq(a.v, b.v)
 VEqV(u, v) == Len(u) = Len(v) /\ \A i \in 1..Len(u) : DEqV(u[i], v[i])
